@@ -74,6 +74,9 @@ static void do_fwd(Codec c, const Args& a) {
   if (c != OS) { lo_ = Math::AngNormalize(lon); if (lo_ == 180) lo_ = -180; }
   double hlat = clat - slat, hlon = clon - slon;
   double tol_lat = 4 * ulp(std::fmax(std::fabs(la), 1e-6)), tol_lon = 4 * ulp(std::fmax(std::fabs(lo_), 1e-6));
+  // OSGB forms x - 100 km * floor(x / 100 km) before scaling: one more rounding, at the magnitude of the tile (negative and small
+  // coordinates are shifted up to ~1e5 m), so the sliver (class F2) is an ulp of max(|x|, tile)
+  if (c == OS) { tol_lat = 4 * ulp(std::fmax(std::fabs(la), 1e5)); tol_lon = 4 * ulp(std::fmax(std::fabs(lo_), 1e5)); }
   bool pole = (c != OS && lat == 90);
   if (!(la >= slat - tol_lat && (la < slat + 2 * hlat + tol_lat || pole))) bad("containment", "lat/x outside decoded cell of " + s);
   if (!(lo_ >= slon - tol_lon && lo_ < slon + 2 * hlon + tol_lon)) bad("containment", "lon/y outside decoded cell of " + s);
